@@ -14,9 +14,9 @@ import (
 // Target: what a bad edge must not reach / what must be gated.
 type Target struct {
 	Name     string
-	Success  bool                          // success exits of the function
-	Instr    func(ssa.Instruction) bool    // or: instructions matching
-	SameIter bool                          // do not follow loop back edges when flooding
+	Success  bool                       // success exits of the function
+	Instr    func(ssa.Instruction) bool // or: instructions matching
+	SameIter bool                       // do not follow loop back edges when flooding
 	Blocks   func(*ssa.Function) []*ssa.BasicBlock
 }
 
@@ -263,11 +263,11 @@ func CondEdges(fn *ssa.Function, c Cond) []Edge {
 }
 
 type Opt struct {
-	Unless  []Cond // alternative acceptance edges (cut in both K1 and K2)
-	UsePtr  bool   // a nil pointer-like result counts as "bad"
-	Min     int    // floor on matched call sites (default 1)
-	K1Only  bool
-	Rule    string
+	Unless []Cond // alternative acceptance edges (cut in both K1 and K2)
+	UsePtr bool   // a nil pointer-like result counts as "bad"
+	Min    int    // floor on matched call sites (default 1)
+	K1Only bool
+	Rule   string
 	// Arg, when set, restricts matched call sites to those whose canonical
 	// argument list contains this substring (distinguishes several calls of one callee).
 	Arg string
@@ -276,6 +276,8 @@ type Opt struct {
 	Waypoint bool
 	// IgnoreBool: the callee's boolean result is data (e.g. "is confirmed"), not a verdict.
 	IgnoreBool bool
+	// Under: (Guard only) consider only branches that sit under all these decisions.
+	Under []Cond
 }
 
 func (c *Ctx) unlessEdges(fn *ssa.Function, fnName string, conds []Cond) EdgeSet {
@@ -586,6 +588,15 @@ func (c *Ctx) Guard(fn *ssa.Function, cond Cond, tgt Target, opt Opt) bool {
 	vs := sigOf(fn.Signature)
 	ok := true
 	for _, e := range edges {
+		skip := false
+		for _, u := range opt.Under {
+			if !HasGuard(e.From, u) {
+				skip = true
+			}
+		}
+		if skip {
+			continue
+		}
 		reached := ReachFrom([]*ssa.BasicBlock{e.To()}, cut)
 		if tgt.SameIter && BackEdges(fn)[e] {
 			reached = map[*ssa.BasicBlock]bool{} // the rejecting edge is itself the jump to the next iteration
